@@ -17,8 +17,9 @@ theorem sReady_lt {s : State} {f : Frame} {k : Nat} (h : sReady s f k) : k < f.c
   · rename_i hk; exact lt_count_of_get hk
   · exact h.elim
 
-theorem postF_of_deqF {s : State} {f : Frame} (h : DeqF s f) (hl : f.deqRes.length = f.recs.length) : PostF s f := by
-  refine ⟨h.tmo, ?_, h.rdy⟩
+theorem postF_of_deqF {s : State} {f : Frame} (h : DeqF s f) (hl : f.deqRes.length = f.recs.length)
+    (hn : f.recs ≠ []) : PostF s f := by
+  refine ⟨h.tmo, ?_, h.rdy, fun _ _ => hn⟩
   intro k hk
   rcases h.why k hk with h1 | ⟨h1, h2, _⟩
   · exact h1
@@ -131,8 +132,9 @@ theorem tf_pollFrom {s : State} {f : Frame} (hf : Fresh f) (hr : f.ready = f.cou
     have hwc := waited_all hw hd
     unfold pollFrom
     split
-    · refine ⟨fun ht => (by rw [hf.why] at ht; cases ht), fun k hk => (by rw [hf.why] at hk; cases hk), ?_⟩
-      intro hlt; rw [hr] at hlt; exact absurd hlt (Nat.lt_irrefl _)
+    · refine ⟨fun ht => (by rw [hf.why] at ht; cases ht), fun k hk => (by rw [hf.why] at hk; cases hk), ?_, ?_⟩
+      · intro hlt; rw [hr] at hlt; exact absurd hlt (Nat.lt_irrefl _)
+      · intro hlt; rw [hr] at hlt; exact absurd hlt (Nat.lt_irrefl _)
     · rename_i hdl
       have hdl : dlePast f.dl = false := by simpa using hdl
       split
